@@ -23,6 +23,7 @@ ReadsOK(o, e) == /\ \A c \in IClaims : GetOK(o, c, e.get[c])
 \* tol = the named deviations (known findings) tolerated while explaining the event
 DecodeCBOROK(tol, e) ==
   LET d == DispatchCBOR(RegOf(e), e.tok) IN
+  e.probeOK /\            \* whatever was presented, the two fixed conformant tokens are still accepted afterwards (no state across calls)
   CASE d.r = "open" -> TRUE
     [] d.r = "err"  -> ~e.dec.ok /\ ~e.val.ok
     [] OTHER ->
@@ -106,6 +107,7 @@ GatesOK(e) ==
 DecodeJSONOK(e) ==
   LET d == DispatchJSON(RegOf(e), e.doc) IN
   /\ Len(e.outs) = 1                                              \* one outcome over repeated dispatch
+  /\ e.probeOK                                                    \* the fixed conformant documents are still accepted afterwards
   /\ IF d.r # "ok" THEN ~e.dec.ok /\ ~e.val.ok /\ e.outs = <<"err">>
      ELSE /\ (e.dec.ok => e.dec.impl = d.e.impl /\ e.dec.obj.p = d.e.p /\ e.dec.obj.canon = d.e.canon /\ ReadsOK(e.dec.obj, e))
           /\ (e.val.ok => e.dec.ok /\ e.val.impl = d.e.impl /\ Valid(e.val.obj) /\ e.val.obj = e.dec.obj
